@@ -138,6 +138,24 @@ func (f *Func) callGraph(args *argBuilder) (
 		}
 	}
 
+	// A named value of an interface type can take the value of a value with
+	// the same name whose type implements that interface.
+	for _, raw := range g.Vertices() {
+		v, ok := raw.(*valueVertex)
+		if !ok || v.Type.Kind() != reflect.Interface || v.Value.IsValid() {
+			continue
+		}
+
+		for _, raw2 := range g.Vertices() {
+			v2, ok := raw2.(*valueVertex)
+			if !ok || v2.Name != v.Name || v2.Type == v.Type || !v2.Type.Implements(v.Type) {
+				continue
+			}
+
+			g.AddEdgeWeighted(v, v2, weightTyped)
+		}
+	}
+
 	// All named values that have no subtype can take a value from
 	// any other value with the same name that has a subtype.
 	for _, raw := range g.Vertices() {
